@@ -28,7 +28,7 @@ P = "unified_planning.engines.compilers."
 # name -> (module, class, compilation kind, profile overrides, recipe post-processing flags)
 NO_UNDEF = dict(undefined_init=0.0)
 TARGETS = {
-    "grounder": (P + "grounder", "Grounder", "GROUNDING", dict(interpreted_functions=0.1, undefined_init=0.2, traj=0.2, int_params=0.2, metric_p=0.4), {"join_trap": 0.5}),
+    "grounder": (P + "grounder", "Grounder", "GROUNDING", dict(interpreted_functions=0.1, undefined_init=0.2, traj=0.2, int_params=0.2, metric_p=0.4, max_params=3), {"join_trap": 0.5}),
     "cerm": (P + "conditional_effects_remover", "ConditionalEffectsRemover", "CONDITIONAL_EFFECTS_REMOVING", dict(NO_UNDEF, int_params=0.1, metric_p=0.4), {"force_cond": True}),
     "dcrm": (P + "disjunctive_conditions_remover", "DisjunctiveConditionsRemover", "DISJUNCTIVE_CONDITIONS_REMOVING", dict(NO_UNDEF, invariants=0.0, int_params=0.1, metric_p=0.4), {}),
     "ncrm": (P + "negative_conditions_remover", "NegativeConditionsRemover", "NEGATIVE_CONDITIONS_REMOVING", dict(NO_UNDEF, traj=0.15, metric_p=0.4), {}),
@@ -51,6 +51,23 @@ TARGETS = {
         {"define_symbolic": True},
     ),
 }
+# compilers outside the ten classical removers (C08: "every compiler"): temporal problems come from vk/gen/durative_cm.py
+TARGETS.update(
+    {
+        "t2s": (P + "timed_to_sequential", "TimedToSequential", "TIMED_TO_SEQUENTIAL", {}, {"gen": "durative", "probe": "valid-sequential"}),
+        "da2p": (P + "durative_actions_to_processes", "DurativeActionToProcesses", "DURATIVE_ACTIONS_TO_PROCESSES", {}, {"gen": "durative", "probe": "time-triggered"}),
+        "ifrm": (
+            P + "interpreted_functions_remover",
+            "InterpretedFunctionsRemover",
+            "INTERPRETED_FUNCTIONS_REMOVING",
+            # no MinimizeActionCosts: the compiler leaves the metric keyed by the *original* actions (reported as a candidate
+            # finding "ill-formed:metric-foreign-action:ifrm"; add "costs" to metric_choices to observe it)
+            dict(NO_UNDEF, interpreted_functions=0.7, invariants=0.15, int_params=0.1, metric_p=0.3, metric_choices=["length", "minfinal", "maxfinal", "oversub"]),
+            {},
+        ),
+    }
+)
+EXTRA_TARGETS = ["t2s", "da2p", "ifrm"]
 TARGET_ORDER = ["grounder", "cerm", "dcrm", "ncrm", "qurm", "utfr", "btrm", "gcrm", "tcrm", "uinrm"]
 # compilation kinds with a registered engine in the default factory (TRAJECTORY_CONSTRAINTS_REMOVING has none)
 PIPELINE_KINDS = [
@@ -65,13 +82,30 @@ PIPELINE_KINDS = [
     "UNDEFINED_INITIAL_NUMERIC_REMOVING",
 ]
 PIPELINE_PROFILE = dict(undefined_init=0.0, traj=0.0, invariants=0.25, int_params=0.1, metric_p=0.3)
+PIPELINE_DURATIVE = 0.25  # share of pipeline inputs that are durative problems
 NAME_CREATING = {"grounder", "cerm", "dcrm", "ncrm", "tcrm", "uinrm"}
 LABEL_OF_CLASS = {v[1]: k for k, v in TARGETS.items()}
+# every compilation kind with a registered engine for single-agent action-based problems (C09 pipelines)
+ALL_PIPELINE_KINDS = PIPELINE_KINDS + ["TIMED_TO_SEQUENTIAL", "DURATIVE_ACTIONS_TO_PROCESSES", "INTERPRETED_FUNCTIONS_REMOVING"]
+
+
+def probe_of(label):
+    """How the plan back-conversion of this compiler is probed (see back_conversion_violations)."""
+    return TARGETS[label][4].get("probe", "map-back") if label in TARGETS else "map-back"
 
 
 def compiler_class(target):
     mod, cls = TARGETS[target][0], TARGETS[target][1]
     return _cls(mod, cls)
+
+
+def instantiate_any(rec, env):
+    """vk.recipe.instantiate_problem, plus problem-level timed effects for durative recipes (vk.gen.temporal.instantiate)."""
+    if rec.get("timed_effects"):
+        from vk.gen.temporal import instantiate
+
+        return instantiate(rec, env)
+    return instantiate_problem(rec, env)
 
 
 # ---- case construction ----------------------------------------------------------------------------------
@@ -119,13 +153,55 @@ def _force_conditional(rec, rng):
             e["cond"] = ["f", rng.choice(bf)["name"]]
 
 
+def _is_start_end(t):
+    return t[0] in ("start", "end") and t[1] in ("0", "-0")
+
+
+def strip_intermediate(rec):
+    """Durative recipe -> the start / end / over-all fragment (TimedToSequential's kind has neither intermediate
+    conditions / effects nor timed effects)."""
+    rec.pop("timed_effects", None)
+    for a in rec["actions"]:
+        if "duration" not in a:
+            continue
+        a["conds"] = [[iv, c] for iv, c in a["conds"] if all(_is_start_end(t) for t in iv[1:])]
+        a["effects"] = [[t, e] for t, e in a["effects"] if _is_start_end(t)]
+        if not a["effects"]:
+            a["effects"].append([["end", "0"], {"kind": "assign", "fluent": ["f", "p0"], "value": ["b", True]}])
+
+
+def avoid_da2p_interval_condition_defect(rec):
+    """Known finding of C29 (DurativeActionToProcesses asserts on a non-fixed duration together with a non-point condition
+    interval ending at `end`): such actions get their duration fixed at the lower bound, so that C08 observes the
+    rest of the compiler instead of re-reporting that defect under another name."""
+    n = 0
+    for a in rec["actions"]:
+        if "duration" in a and a["duration"][0] != "fixed":
+            if any(iv[0] != "point" and iv[2][0] == "end" for iv, _ in a["conds"]):
+                a["duration"] = ["fixed", a["duration"][1]]
+                n += 1
+    return n
+
+
+def gen_durative(rng, fragment):
+    """(recipe, features) of a small durative problem: fragment "t2s" (start/end/over-all only), "da2p" or "full"."""
+    from vk.gen.durative_cm import gen_durative_problem
+
+    rec, feats = gen_durative_problem(rng)
+    if fragment == "t2s":
+        strip_intermediate(rec)
+    elif fragment == "da2p":
+        avoid_da2p_interval_condition_defect(rec)
+    return rec, feats
+
+
 def build_case(key, target, tries=6):
     """-> dict(rec, feats, pb, rejected=<count>, why=[...]) ; pb None when no recipe inside the kind was found."""
     from unified_planning.exceptions import UPException
 
     rng = rng_for(key, "build")
     if target == "pipeline":
-        prof, flags, Comp = dict(PIPELINE_PROFILE), {"join_trap": 0.3}, None
+        prof, flags, Comp = dict(PIPELINE_PROFILE), {"join_trap": 0.3, "durative": PIPELINE_DURATIVE}, None
     else:
         prof, flags = dict(TARGETS[target][3]), TARGETS[target][4]
         Comp = compiler_class(target)
@@ -139,7 +215,12 @@ def build_case(key, target, tries=6):
         pf["names"] = idents.make_names()
         if rng.random() < metric_p:
             pf["metric"] = rng.choice(metric_choices) if metric_choices else "any"
-        rec, feats = gen_problem(rng, pf)
+        if flags.get("gen") == "durative":
+            rec, feats = gen_durative(rng, target)
+        elif target == "pipeline" and rng.random() < flags.get("durative", 0.0):
+            rec, feats = gen_durative(rng, rng.choice(["t2s", "t2s", "da2p"]))
+        else:
+            rec, feats = gen_problem(rng, pf)
         if flags.get("define_symbolic"):
             _define_symbolic(rec, rng)
         if flags.get("force_cond"):
@@ -149,7 +230,7 @@ def build_case(key, target, tries=6):
             idents.inject_join_trap(rec, rng)
         e = _env.fresh_env()
         try:
-            pb, ctx = instantiate_problem(copy.deepcopy(rec), e)
+            pb, ctx = instantiate_any(copy.deepcopy(rec), e)
         except UPException as ex:
             why.append("build:" + type(ex).__name__)
             continue
@@ -326,7 +407,8 @@ def wf_violations(pb, error_used_name=True):
 
     out = []
     fl, acts, objs, types = list(pb.fluents), list(pb.actions), list(pb.all_objects), list(pb.user_types)
-    names = {"fluent": [f.name for f in fl], "action": [a.name for a in acts], "object": [o.name for o in objs], "type": [t.name for t in types]}
+    natural = [t.name for t in list(getattr(pb, "processes", [])) + list(getattr(pb, "events", []))]
+    names = {"fluent": [f.name for f in fl], "action": [a.name for a in acts] + natural, "object": [o.name for o in objs], "type": [t.name for t in types]}
     for g, ns in names.items():
         dup = sorted({n for n in ns if ns.count(n) > 1})
         if dup:
@@ -377,6 +459,20 @@ def wf_violations(pb, error_used_name=True):
             for w, x in (("duration-lower", a.duration.lower), ("duration-upper", a.duration.upper)):
                 ctx["where"] = f"{w} of {a.name}"
                 _walk(x, (), ctx, out)
+    for kind_, trs in (("process", getattr(pb, "processes", [])), ("event", getattr(pb, "events", []))):
+        for tr in trs:
+            ctx["params"] = list(tr.parameters)
+            for p in tr.parameters:
+                _type_declared(p.type, ctx, out, f"parameter {tr.name}.{p.name}")
+            for c in tr.preconditions:
+                ctx["where"] = f"precondition of {kind_} {tr.name}"
+                _walk(c, (), ctx, out)
+                nexp += 1
+            for eff in tr.effects:
+                for w, x in _effect_exprs(eff):
+                    ctx["where"] = f"{w} of {kind_} {tr.name}"
+                    _walk(x, tuple(eff.forall), ctx, out)
+                    nexp += 1
     ctx["params"] = None
     groups = [("goal", pb.goals), ("state-invariant", pb.state_invariants), ("trajectory-constraint", pb.trajectory_constraints)]
     for w, exprs in groups:
@@ -389,6 +485,14 @@ def wf_violations(pb, error_used_name=True):
         _walk(k, (), ctx, out)
         _walk(v, (), ctx, out)
         nexp += 1
+    try:
+        total_init = list(pb.initial_values.items())  # explicit values + defaults: every key must be about a declared fluent
+    except Exception:
+        total_init = []
+    for k, v in total_init:
+        ctx["where"] = "initial value (initial_values)"
+        _walk(k, (), ctx, out)
+        _walk(v, (), ctx, out)
     for f, v in pb.fluents_defaults.items():
         if not any(f is g or f == g for g in fl):
             out.append(("undeclared-fluent", f"{f.name} in fluents_defaults"))
@@ -477,10 +581,32 @@ def _is_sub(t, anc):
     return False
 
 
-def back_conversion_violations(result, original, compiled):
+def _applicable_first_steps(compiled):
+    """Reference semantics (vk/ref/seqsem.py): the ground instances applicable in the initial state of `compiled`."""
+    from vk.ref import seqsem
+    from vk.ref.evalx import Unsupported
+
+    out = []
+    try:
+        s0 = seqsem.initial_state(compiled)
+        for a, args in seqsem.all_instances(compiled):
+            if len(out) >= 6:
+                break
+            if seqsem.succ(compiled, s0, a, args).status == "ok":
+                out.append((a, seqsem.param_exprs(compiled, a, args)))
+    except (Unsupported, Exception):
+        pass
+    return out
+
+
+def back_conversion_violations(result, original, compiled, probe="map-back"):
     """-> (list of (class, detail), stats). Checks plan_back_conversion availability and usability and that the
-    map-back sends every compiled action to None or to an instance of an action *of the original problem*."""
-    from unified_planning.plans import SequentialPlan, ActionInstance
+    conversion sends every compiled step to an instance of an action *of the original problem* (or to nothing).
+    probe = "map-back": the empty plan and every single-step sequential plan (a per-action mapping needs no valid plan);
+    "valid-sequential": the conversion simulates the plan, so only the empty plan and single steps that the reference
+    semantics find applicable in the initial state are converted; "time-triggered": the conversion takes time-triggered
+    plans of the compiled problem (start/end action pairs): only the empty time-triggered plan is converted."""
+    from unified_planning.plans import SequentialPlan, ActionInstance, TimeTriggeredPlan
     from unified_planning.plans.plan import Plan
 
     out = []
@@ -501,6 +627,11 @@ def back_conversion_violations(result, original, compiled):
         conv = pbc
     orig_actions = list(original.actions)
 
+    def steps_of(plan):
+        if isinstance(plan, TimeTriggeredPlan):
+            return [ai for _, ai, _ in plan.timed_actions]
+        return list(getattr(plan, "actions", []))
+
     def judge_plan(pl, what):
         try:
             back = conv(pl)
@@ -510,21 +641,27 @@ def back_conversion_violations(result, original, compiled):
         if not isinstance(back, Plan):
             out.append(("back-conversion-not-a-plan", f"{what}: {back!r}"))
             return
-        for ai in getattr(back, "actions", []):
+        for ai in steps_of(back):
             if not any(ai.action is a for a in orig_actions) and not any(ai.action == a for a in orig_actions):
                 out.append(("back-conversion-foreign-action", f"{what}: mapped to action {ai.action.name} which is not an action of the original problem"))
             elif len(ai.actual_parameters) != len(ai.action.parameters):
                 out.append(("back-conversion-arity", f"{what}: {ai}"))
-        if what != "empty plan" and len(getattr(back, "actions", [])) == 0:
+        if what != "empty plan" and len(steps_of(back)) == 0:
             stats["mapped_to_none"] += 1
 
-    judge_plan(SequentialPlan([], env), "empty plan")
-    for a in compiled.actions:
-        args = _some_args(compiled, a)
-        if args is None:
-            continue
-        stats["steps"] += 1
-        judge_plan(SequentialPlan([ActionInstance(a, args)], env), f"single-step plan [{a.name}]")
+    if probe == "time-triggered":
+        judge_plan(TimeTriggeredPlan([], env), "empty plan")
+    else:
+        judge_plan(SequentialPlan([], env), "empty plan")
+        if probe == "valid-sequential":
+            steps = _applicable_first_steps(compiled)
+        else:
+            steps = [(a, _some_args(compiled, a)) for a in compiled.actions]
+        for a, args in steps:
+            if args is None:
+                continue
+            stats["steps"] += 1
+            judge_plan(SequentialPlan([ActionInstance(a, args)], env), f"single-step plan [{a.name}]")
     seen, ded = set(), []
     for c, d in out:
         if c not in seen:
